@@ -184,8 +184,14 @@ def teardown_engine(prop, tier, seed, out, known):
 
         def one(x):
             o, k, c, mn = x
-            p = subprocess.run([binpath, "teardown", "--order", str(o), "--kind", str(k), "--tls-collects", str(c), "--main", str(mn)], stdout=subprocess.PIPE, stderr=subprocess.PIPE, text=True, timeout=60)
-            return x, p.returncode, p.stdout, p.stderr
+            cmd = [binpath, "teardown", "--order", str(o), "--kind", str(k), "--tls-collects", str(c), "--main", str(mn)]
+            for attempt in range(3):
+                try:
+                    p = subprocess.run(cmd, stdout=subprocess.PIPE, stderr=subprocess.PIPE, text=True, timeout=120)
+                    return x, p.returncode, p.stdout, p.stderr
+                except subprocess.TimeoutExpired:
+                    continue
+            return x, -999, "", "scenario did not finish within 120 s (three attempts): hang"
         with ThreadPoolExecutor(max_workers=16) as ex:
             for x, rc, so, se in ex.map(one, combos):
                 total += 1
